@@ -98,14 +98,40 @@ M = [
             throw std::runtime_error("MDP definition is incomplete");"""),
  ('M28 discount line ignored after the first one', F,
   """            discount_ = std::stod(tokenize(line, ":").at(1));""", """            if (discount_ == 1.0) discount_ = std::stod(tokenize(line, ":").at(1));"""),
+ ('N1 (round 2) a reused parser keeps the previous discount', F,
+  """        discount_ = 1.0;
+
+        for(std::string line;""", """        for(std::string line;"""),
+ ('N2 (round 2) a reused parser keeps the previous observation count', F,
+  """        S_ = 0, A_ = 0, O_ = 0;""", """        S_ = 0, A_ = 0;"""),
+ ('N3 (round 2) lines_ is not cleared between two uses of a parser', F,
+  """        lines_.clear();
+        S_ = 0""", """        S_ = 0"""),
+ ('N4 (round 2) the discount default is set once in the constructor, not per parse', F,
+  """        discount_ = 1.0;
+
+        for(std::string line;""", """        static_cast<void>(0);
+
+        for(std::string line;""", """        initMap_["values"] = [](const std::string &){};""", """        discount_ = 1.0;
+        initMap_["values"] = [](const std::string &){};"""),
+ ('N5 (round 2) the sizes are zeroed once in the constructor, not per parse', F,
+  """        S_ = 0, A_ = 0, O_ = 0;
+        discount_""", """        discount_""", """        initMap_["values"] = [](const std::string &){};""", """        S_ = 0, A_ = 0, O_ = 0;
+        initMap_["values"] = [](const std::string &){};"""),
 ]
 sel = sys.argv[1:]
-for name, f, a, b in M:
+for entry in M:
+    name, f, a, b = entry[:4]
     if sel and name.split()[0] not in sel: continue
     p = os.path.join(REPO, f); s = open(p).read()
     if s.count(a) != 1:
         print(name, 'PATTERN COUNT', s.count(a)); continue
-    open(p, 'w').write(s.replace(a, b))
+    s = s.replace(a, b)
+    if len(entry) == 6:
+        if s.count(entry[4]) != 1:
+            print(name, 'PATTERN2 COUNT', s.count(entry[4])); continue
+        s = s.replace(entry[4], entry[5])
+    open(p, 'w').write(s)
     r = subprocess.run(['python3', 'tools/check.py', 'C18', '--tier', 'quick'], cwd=WT, env=env, capture_output=True, text=True)
     lines = [l for l in r.stdout.splitlines() if l.startswith('VIOLATION') or l.startswith('[C18]')]
     print('==', name, 'exit', r.returncode)
